@@ -1145,6 +1145,8 @@ class PlainQuantity(Generic[MagnitudeT], PrettyIPython, SharedRegistryObject):
         if not is_duck_array_type(type(self._magnitude)):
             return self.__pow__(other)
 
+        # an exponent of another registry is refused like any other operand
+        self._check(other)
         try:
             _to_magnitude(other, self.force_ndarray, self.force_ndarray_like)
         except PintTypeError:
@@ -1206,6 +1208,8 @@ class PlainQuantity(Generic[MagnitudeT], PrettyIPython, SharedRegistryObject):
 
     @check_implemented
     def __pow__(self, other) -> PlainQuantity[MagnitudeT]:
+        # an exponent of another registry is refused like any other operand
+        self._check(other)
         try:
             _to_magnitude(other, self.force_ndarray, self.force_ndarray_like)
         except PintTypeError:
